@@ -1448,6 +1448,27 @@ func flagSetInstr(in ssa.Instruction) string {
 		if cal == nil || cal.Pkg == nil || cal.Pkg.Pkg.Path() != "sync/atomic" || len(x.Call.Args) < 2 {
 			return ""
 		}
+		// CompareAndSwap(&x.F, clear, set): test and set in one step
+		if strings.HasPrefix(cal.Name(), "CompareAndSwap") && len(x.Call.Args) == 3 {
+			wasClear := false
+			if b, ok := constBool(x.Call.Args[1]); ok && !b {
+				wasClear = true
+			}
+			if k, ok := constInt(x.Call.Args[1]); ok && k == 0 {
+				wasClear = true
+			}
+			nowSet := false
+			if b, ok := constBool(x.Call.Args[2]); ok && b {
+				nowSet = true
+			}
+			if k, ok := constInt(x.Call.Args[2]); ok && k != 0 {
+				nowSet = true
+			}
+			if wasClear && nowSet {
+				return flagFieldOfAddr(x.Call.Args[0])
+			}
+			return ""
+		}
 		if !strings.HasPrefix(cal.Name(), "Store") && !strings.HasPrefix(cal.Name(), "Swap") {
 			return ""
 		}
@@ -1545,6 +1566,12 @@ func flagExpr(v ssa.Value, field string, depth int) (isFlag, positive bool) {
 	case *ssa.Call:
 		if isLoadOfField(x) && isBoolType(x.Type()) {
 			return true, true
+		}
+		// a failed CompareAndSwap(&F, clear, set) says the flag was set already
+		if flagSetInstr(x) == field {
+			if cal := x.Call.StaticCallee(); cal != nil && strings.HasPrefix(cal.Name(), "CompareAndSwap") {
+				return true, false
+			}
 		}
 		h := x.Call.StaticCallee()
 		if h == nil || h.Blocks == nil || h.Signature.Results().Len() != 1 || !isBoolType(h.Signature.Results().At(0).Type()) || h.Signature.Recv() == nil {
